@@ -33,10 +33,10 @@ def main():
         sdir = os.path.join(VERIF, "seeded", name)
         patch = os.path.join(sdir, "patch.diff")
         targets = props or [name[:3]]
-        r = sh("git -C /repo apply --3way %s 2>&1 || git -C /repo apply %s" % (patch, patch))
-        if sh("git -C /repo diff --quiet").returncode == 0:
+        r = sh("git -C /repo apply %s 2>&1 || (git -C /repo apply --3way %s 2>&1 && git -C /repo reset -q)" % (patch, patch))
+        if sh("git -C /repo diff --quiet HEAD").returncode == 0:
             print(json.dumps({"seed": name, "error": "patch did not apply", "out": r.stdout[-500:]}))
-            sh("git -C /repo checkout -- . ; git -C /repo reset -q")
+            sh("git -C /repo reset -q ; git -C /repo checkout -- .")
             continue
         try:
             for p in targets:
